@@ -213,6 +213,12 @@ def nested():
     nestset = T('SET', [], fields=[('c', outerch, 'req'), ('x', T('INTEGER', [('I', CTX, 3)]), 'req')])
     out.append((nestset, {'c': ('n', ('i', 7)), 'x': 1}))
     out.append((nestset, {'c': ('s', b'z'), 'x': 1}))
+    # two members of different types whose canonical SET order (by tag) is not the order of their encodings as octet
+    # strings: decoded without a schema it is a SET (two kinds of element), not a SET OF (which DER would sort by octets)
+    two = T('SET', [], fields=[('q', T('SEQUENCE', [], fields=[('a', T('INTEGER'), 'req')]), 'req'), ('s', T('IA5String'), 'req')])
+    out.append((two, {'q': {'a': 1}, 's': 'x'}))
+    two2 = T('SEQUENCE', [], fields=[('s', T('IA5String'), 'req'), ('s2', T('IA5String'), 'req'), ('n', T('NULL'), 'req')])
+    out.append((two2, {'s': 'a', 's2': 'b', 'n': None}))
     zeros = T('SEQUENCE', [], fields=[('i', T('INTEGER'), 'req'), ('z', T('INTEGER'), 'req'), ('b', T('BOOLEAN'), 'req'),
                                       ('e', T('ENUMERATED'), 'req'), ('j', T('INTEGER'), 'req')])
     out.append((zeros, {'i': 3, 'z': 0, 'b': False, 'e': 0, 'j': 5}))
